@@ -85,6 +85,10 @@ def mutate(h, ent, what, val, n):
         return lambda g: None if np.array_equal(np.asarray(g[:]), new) else {"attr": "data"}
     if what == "child":
         name = "c05-child-%d" % n
+        taken = [c.name for c in (h.sources if ent.kind == "source" else h.sections)]
+        while name in taken:            # the same probe number may hit one entity twice in a case
+            name += "'"
+        ent.info["c05_last_child"] = name
         if ent.kind == "source":
             h.create_source(name, "t")
             return lambda g: None if name in [s.name for s in g.sources] else {"attr": "child source"}
@@ -92,6 +96,8 @@ def mutate(h, ent, what, val, n):
         return lambda g: None if name in [s.name for s in g.sections] else {"attr": "child section"}
     if what == "prop":
         name = "c05-prop-%d" % n
+        while name in h.props:
+            name += "'"
         h.create_property(name, [n, n + 1])
         return lambda g: None if (name in g.props and list(g.props[name].values) == [n, n + 1]) else {"attr": "prop"}
     v = {"text": "c05 %s %d ü" % (val, n), "type": "c05.type.%d" % n, "unit": ["mV", "s", "kHz", "uA"][n % 4],
@@ -142,7 +148,7 @@ def probe_alias(it, pr, ctx, case, flags):
         return
     if what == "child":
         # keep the model in sync for later probes
-        name = "c05-child-%d" % pr.get("n", 0)
+        name = ent.info.get("c05_last_child", "c05-child-%d" % pr.get("n", 0))
         kid = [c for c in (h.sources if ent.kind == "source" else h.sections) if c.name == name][0]
         it._new("source" if ent.kind == "source" else "section", name, kid.id, ent, None)
     others = [p for p in P if p[0] != via[0]]
